@@ -101,47 +101,47 @@ def C02_step_full : Prop :=
 /-! #### the witness: two regions, the first transition leaves the parallel state, the second one — of the same
 event, its source no longer active — fires nevertheless and exits the state just entered (DESIGN 6, item 7) -/
 
-def exLeaf (n : Nat) : SDef := { name := n }
+def c02Leaf (n : Nat) : SDef := { name := n }
 
 /-- `P`(1) parallel [`a`(2) ⊃ `a1`(3);  `b`(4) ⊃ `b1`(5), `b2`(6)], `Q`(7);
 event 0: `P_a_a1 → Q` and `P_b_b1 → P_b_b2`, both declared on the machine -/
-def exStale : NCfg :=
+def c02Stale : NCfg :=
   { states := .cons { name := 1, initial := [2, 4] }
-      (.cons { name := 2, initial := [3] } (.cons (exLeaf 3) .nil .nil)
-        (.cons { name := 4, initial := [5] } (.cons (exLeaf 5) .nil (.cons (exLeaf 6) .nil .nil)) .nil))
-      (.cons (exLeaf 7) .nil .nil),
+      (.cons { name := 2, initial := [3] } (.cons (c02Leaf 3) .nil .nil)
+        (.cons { name := 4, initial := [5] } (.cons (c02Leaf 5) .nil (.cons (c02Leaf 6) .nil .nil)) .nil))
+      (.cons (c02Leaf 7) .nil .nil),
     events := [(0, [{ source := [1, 2, 3], dest := some [7] }, { source := [1, 4, 5], dest := some [1, 4, 6] }])],
     initial := [1] }
 
-def exScript : Script := fun _ _ => {}
-def exSub : NSub := fun _ s => .ok () s
+def c02Script : Script := fun _ _ => {}
+def c02Sub : NSub := fun _ s => .ok () s
 
-example : exStale.states.WF = true := by decide
-example : NoRaise exScript := fun _ _ => ⟨true, rfl⟩
-example : NoCmds exScript := fun _ _ => rfl
+example : c02Stale.states.WF = true := by decide
+example : NoRaise c02Script := fun _ _ => ⟨true, rfl⟩
+example : NoCmds c02Script := fun _ _ => rfl
 
 /-- the run: initial configuration `[P_a_a1, P_b_b1]`, one trigger of event 0; afterwards the configuration is
 `P_b_b2` alone, `Q` was entered and exited within the event, and the ghost says so -/
 theorem C02_step_counterexample_run :
-    ((NSt.init exStale).bind fun s0 => ((napiTrigger exSub exScript exStale 4 0 s0).state?).map fun s =>
+    ((NSt.init c02Stale).bind fun s0 => ((napiTrigger c02Sub c02Script c02Stale 4 0 s0).state?).map fun s =>
       (buildStateList [] s0.conf, buildStateList [] s.conf,
-       (grun exStale (G.init exStale s0.conf) s.glog).enteredThenExited,
-       (grun exStale (G.init exStale s0.conf) s.glog).eteStale))
+       (grun c02Stale (G.init c02Stale s0.conf) s.glog).enteredThenExited,
+       (grun c02Stale (G.init c02Stale s0.conf) s.glog).eteStale))
     = some (.cons (.name [1, 2, 3]) (.cons (.name [1, 4, 5]) .nil), .name [1, 4, 6], true, true) := by decide
 
 theorem C02_step_counterexample : ¬ C02_step_full := by
   intro hfull
-  cases h0 : NSt.init exStale with
+  cases h0 : NSt.init c02Stale with
   | none => revert h0; decide
   | some s0 =>
-    cases h1 : (napiTrigger exSub exScript exStale 4 0 s0).state? with
+    cases h1 : (napiTrigger c02Sub c02Script c02Stale 4 0 s0).state? with
     | none =>
       have := C02_step_counterexample_run
       simp [h0, h1] at this
     | some s1 =>
-      obtain ⟨hI, hcl⟩ := C02_init exStale (by decide) s0 h0
-      obtain ⟨seg, hl, hc⟩ := hfull exStale (by decide) exSub exScript (fun _ _ => ⟨true, rfl⟩) (fun _ _ => rfl)
-        4 0 s0 s1 (G.init exStale s0.conf) hI hcl h1
+      obtain ⟨hI, hcl⟩ := C02_init c02Stale (by decide) s0 h0
+      obtain ⟨seg, hl, hc⟩ := hfull c02Stale (by decide) c02Sub c02Script (fun _ _ => ⟨true, rfl⟩) (fun _ _ => rfl)
+        4 0 s0 s1 (G.init c02Stale s0.conf) hI hcl h1
       have hg0 : s0.glog = [] := by
         simp only [NSt.init, Option.map_eq_some_iff] at h0
         obtain ⟨f, _, rfl⟩ := h0; rfl
@@ -263,19 +263,19 @@ theorem C02_new_configuration (cfg : NCfg) (hwf : cfg.states.WF = true) (scope :
 /-! ### non-vacuity: a machine with parallel states nested in a parallel state -/
 
 /-- `P`(1) parallel [`a`(2) parallel [`x`(4), `y`(5)], `b`(3)], `Q`(6); event 0: `Q → P` and `P_b → Q` -/
-def exNest : NCfg :=
+def c02Nest : NCfg :=
   { states := .cons { name := 1, initial := [2, 3] }
-      (.cons { name := 2, initial := [4, 5] } (.cons (exLeaf 4) .nil (.cons (exLeaf 5) .nil .nil))
-        (.cons (exLeaf 3) .nil .nil))
-      (.cons (exLeaf 6) .nil .nil),
+      (.cons { name := 2, initial := [4, 5] } (.cons (c02Leaf 4) .nil (.cons (c02Leaf 5) .nil .nil))
+        (.cons (c02Leaf 3) .nil .nil))
+      (.cons (c02Leaf 6) .nil .nil),
     events := [(0, [{ source := [6], dest := some [1] }, { source := [1, 3], dest := some [6] }])],
     initial := [6] }
 
-example : exNest.states.WF = true := by decide
+example : c02Nest.states.WF = true := by decide
 /-- `Q` → `[[P_a_x, P_a_y], P_b]` → `Q`: two events, each executing one transition; the ghost is clean throughout -/
-example : ((NSt.init exNest).bind fun s0 => (nrunHistory exScript exNest 8 2 [0, 0, 0] s0).map fun s =>
-      (buildStateList [] s.conf, (grun exNest (G.init exNest s0.conf) s.glog).clean,
-       (grun exNest (G.init exNest s0.conf) s.glog).maxExec, s.glog.length))
+example : ((NSt.init c02Nest).bind fun s0 => (nrunHistory c02Script c02Nest 8 2 [0, 0, 0] s0).map fun s =>
+      (buildStateList [] s.conf, (grun c02Nest (G.init c02Nest s0.conf) s.glog).clean,
+       (grun c02Nest (G.init c02Nest s0.conf) s.glog).maxExec, s.glog.length))
     = some (.cons (.cons (.name [1, 2, 4]) (.cons (.name [1, 2, 5]) .nil)) (.cons (.name [1, 3]) .nil), true, 1, 33) := by
   decide
 
